@@ -394,7 +394,8 @@ class Super:
                 nm = a.targets[0].id
                 if nm in flags:
                     val = dict(val)
-                    val[(id(sn.frame), nm)] = bool(a.value.value)
+                    # True / False / None (a tri-state result variable)
+                    val[(id(sn.frame), nm)] = a.value.value
         return val
 
     def _flag_blocks(self, sn, lab, val):
@@ -402,8 +403,21 @@ class Super:
         if isinstance(lab, tuple) and len(lab) == 4 and lab[0] in ('T', 'F') \
                 and isinstance(lab[1], ast.Name):
             k = (id(sn.frame), lab[1].id)
-            if k in val and val[k] != (lab[0] == 'T'):
+            if k in val and bool(val[k]) != (lab[0] == 'T'):
                 return True
+        elif isinstance(lab, tuple) and len(lab) == 4 and \
+                lab[0] in ('T', 'F') and isinstance(lab[1], ast.Compare) and \
+                len(lab[1].ops) == 1 and isinstance(
+                    lab[1].ops[0], (ast.Is, ast.IsNot)) and isinstance(
+                    lab[1].left, ast.Name) and isinstance(
+                    lab[1].comparators[0], ast.Constant) and \
+                lab[1].comparators[0].value is None:
+            # ``flag is None`` of a tracked tri-state local
+            k = (id(sn.frame), lab[1].left.id)
+            if k in val:
+                truth = (val[k] is None) == isinstance(lab[1].ops[0], ast.Is)
+                if truth != (lab[0] == 'T'):
+                    return True
         return False
 
     def reach(self, starts, avoid=None, edge_ok=None, stop=None, init=None):
